@@ -27,6 +27,12 @@ CLASSES = sweep.DAG_CLASSES + sweep.CYC_CLASSES
 
 
 def cases(tier, seed):
+    for inst in sweep.dag_float_data_instances(tier, seed):
+        for cls in ("kFlowDecomp", "MinFlowDecomp", "kMinPathError", "kLeastAbsErrors"):
+            yield dict(inst, cls=cls, level=0)
+    for inst in sweep.dag_zero_flow_instances(tier, seed, per_shape=1):
+        for cls in ("kFlowDecomp", "MinFlowDecomp", "kMinPathError", "kLeastAbsErrors"):
+            yield dict(inst, cls=cls, level=0)
     insts = sweep.dag_instances(tier, seed) + sweep.cyc_instances(tier, seed)
     for inst in insts:
         classes = sweep.DAG_CLASSES + (["NumPaths:kMinPathError", "NumPaths:kLeastAbsErrors"] if True else []) if inst["fam"] == "dag" else sweep.CYC_CLASSES
@@ -84,7 +90,7 @@ def run(case):
     k0 = width
     if base_cls in ("kFlowDecomp", "kFlowDecompCycles"):
         sib = "MinFlowDecomp" if base_cls == "kFlowDecomp" else "MinFlowDecompCycles"
-        o = drivers.observe(dict(inst, cls=sib, kw={"weight_type": "int"}))
+        o = drivers.observe(dict(inst, cls=sib, kw={"weight_type": "float" if case.get("float_data") else "int"}))
         if not o["solved"]:
             return {"v": [], "nt": None, "tags": {"no_feasible_k": 1}, "out": "skip"}
         k0 = len(o["sol"][rkey])
@@ -97,6 +103,7 @@ def run(case):
     cfgs = [cfg("base")]
     if is_k:
         cfgs.append(cfg("k+1", {"k": k0 + 1}))
+        cfgs.append(cfg("k+2", {"k": k0 + 2}))
     if not cover:
         cfgs.append(cfg("float", {"weight_type": "float"}))
         if base_cls in sweep.ERRM:
@@ -124,12 +131,17 @@ def run(case):
     for fname, fl in sweep.flag_sets(base_cls, case["level"])[1:]:
         cfgs.append(cfg(f"flags:{fname}", {"optimization_options": dict(fl)}))
 
+    if case.get("float_data"):
+        import flowpaths.utils.graphutils as gu
+        if base_cls in ("kFlowDecomp", "MinFlowDecomp") and not gu.check_flow_conservation(drivers.build_graph(inst), "flow"):
+            return {"v": [], "nt": None, "tags": {"float_data_not_exactly_conserving(skipped)": 1}, "out": "skip"}
+        cfgs = [c for c in cfgs if c["name"] in ("base", "k+1", "k+2", "float", "constraint")]
     for c in cfgs:
         kw = {}
         if is_k:
             kw["k"] = k0
         if not cover:
-            kw["weight_type"] = "int"
+            kw["weight_type"] = "float" if case.get("float_data") else "int"
         kw.update(c["kw"])
         use = c["inst"] or inst
         obs = _solve(use, cls, kw)
